@@ -93,4 +93,34 @@ def structural(find_def):
         why5 = ("`required` is frozenset(schema['required']) when that list is non-empty and the empty set otherwise: a property is wrapped in Optional exactly when the emitter did not list it"
                 if ok5 else "`required` of the parser is bound to: %s" % (txt or "%d bindings" % len(binds)))
     out.append(("parse.json_schema/S5-required-set-is-the-schema's-required-list", ok5, why5))
+    # S6 / S7 (Literal <-> pattern): the emitter joins the members with a one-character constant, the parser splits the
+    # pattern at the same constant and takes every piece as a member -- the shape lean/C06.lean pattern_roundtrip is about
+    ef = find_def("cdd.json_schema.utils.emit_utils", "param2json_schema_property")
+    pf = find_def("cdd.json_schema.utils.parse_utils", "json_schema_property_to_param")
+    sep_e = sep_p = None
+    ok6, why6 = None, "param2json_schema_property not found"
+    if ef is not None:
+        joins = [v for d in ast.walk(ef) if isinstance(d, ast.Dict) for k, v in zip(d.keys, d.values) if isinstance(k, ast.Constant) and k.value == "pattern"]
+        enum_b = [n for n in ast.walk(ef) if isinstance(n, ast.Assign) and any(isinstance(t, ast.Name) and t.id == "enum" for t in n.targets)]
+        ok6 = (len(joins) == 1 and isinstance(joins[0], ast.Call) and isinstance(joins[0].func, ast.Attribute) and joins[0].func.attr == "join"
+               and isinstance(joins[0].func.value, ast.Constant) and isinstance(joins[0].func.value.value, str) and len(joins[0].func.value.value) == 1
+               and len(joins[0].args) == 1 and ast.unparse(joins[0].args[0]) == "enum" and len(enum_b) == 1
+               and ast.unparse(enum_b[0].value) in ("sorted(map(cdd.shared.ast_utils.get_value, cdd.shared.ast_utils.get_value(parsed_typ.slice).elts))",
+                                                    "tuple(map(cdd.shared.ast_utils.get_value, cdd.shared.ast_utils.get_value(parsed_typ.slice).elts))",
+                                                    "list(map(cdd.shared.ast_utils.get_value, cdd.shared.ast_utils.get_value(parsed_typ.slice).elts))"))
+        sep_e = joins[0].func.value.value if ok6 else None
+        why6 = ("the Literal branch writes \"pattern\": %r.join(enum), enum being the members of the Literal (get_value of every element)" % sep_e if ok6
+                else "the pattern is written as: %s ; enum bound as: %s" % ([ast.unparse(j)[:80] for j in joins], [ast.unparse(b.value)[:120] for b in enum_b]))
+    out.append(("param2json_schema_property/S6-pattern-is-the-members-joined-by-one-character", ok6, why6))
+    ok7, why7 = None, "json_schema_property_to_param not found"
+    if pf is not None:
+        mb = [n for n in ast.walk(pf) if isinstance(n, ast.Assign) and any(isinstance(t, ast.Name) and t.id == "maybe_enum" for t in n.targets)]
+        fm = [n for n in ast.walk(pf) if isinstance(n, ast.Assign) and ast.unparse(n.targets[0]) == "_param['typ']" and "Literal" in ast.unparse(n.value)]
+        split_ok = len(mb) == 1 and isinstance(mb[0].value, ast.Call) and ast.unparse(mb[0].value.func) == "_param['pattern'].split" and len(mb[0].value.args) == 1 and isinstance(mb[0].value.args[0], ast.Constant) and not mb[0].value.keywords
+        sep_p = mb[0].value.args[0].value if split_ok else None
+        ok7 = bool(split_ok and sep_e is not None and sep_p == sep_e and len(fm) == 1
+                   and ast.unparse(fm[0].value) == "'Literal[{}]'.format(', '.join(map(\"'{}'\".format, maybe_enum)))")
+        why7 = ("maybe_enum = _param['pattern'].split(%r) -- the emitter's separator -- and the type is Literal[...] of exactly those pieces, in order" % sep_p if ok7
+                else "split: %s ; emitter separator %r ; Literal built as: %s" % ([ast.unparse(b.value)[:80] for b in mb], sep_e, [ast.unparse(f.value)[:120] for f in fm]))
+    out.append(("json_schema_property_to_param/S7-pattern-split-at-the-emitter's-separator-into-the-members", ok7, why7))
     return out
